@@ -5,6 +5,7 @@ CONSTANTS
   Dense = FALSE
   KeepStatus = FALSE
   RecheckAtApply = TRUE
+  RecheckElect = TRUE
   RecheckISR = TRUE
   KeepOnFail = FALSE
   CountAll = FALSE
